@@ -61,6 +61,16 @@ def audit_on(root, phase="lib", out=None):
     _AUD.update({"on": True, "root": root, "out": out, "events": [], "phase": phase})
 
 
+def harness_open(*a, **kw):
+    """open() by the harness itself while the hook is armed (not an effect of the code under test)"""
+    was = _AUD["on"]
+    _AUD["on"] = False
+    try:
+        return open(*a, **kw)
+    finally:
+        _AUD["on"] = was
+
+
 def audit_off():
     _AUD["on"] = False
     return _AUD["events"]
@@ -380,6 +390,21 @@ def handle_workloads(rng):
         for m in t.getmembers():
             t.extractfile(m).read()
     out.append(("vmtar", vt, tb))
+    import gzip
+    tgz = gzip.compress(tb)
+
+    def vtc(h):
+        from dissect.hypervisor.util import vmtar
+        for opener in (lambda: vmtar.open(fileobj=h), lambda: vmtar.VisorTarFile(fileobj=h)):
+            h.seek(0)
+            try:
+                t = opener()
+            except Exception:  # noqa: BLE001   (the plain class does not inflate: a refusal is fine, a write is not)
+                continue
+            for m in t.getmembers():
+                t.extractfile(m).read()
+    out.append(("vmtar-gzip-both-entry-points", vtc, tgz))
+    out.append(("vmtar-both-entry-points", vtc, tb))
     return out
 
 
@@ -525,12 +550,36 @@ def run(ctx):
             audit_on(root, phase="lib")
             err = ""
             try:
-                with open(pth, "r+b") as fh:
+                # handles in every mode a caller may hold evidence in: update, append (reads allowed), and a spooled temporary
+                # file that has been rolled over to disk (mode "w+b", integer .name)
+                with harness_open(pth, "r+b") as fh:
                     fn(fh)
             except Exception as e:  # noqa: BLE001
                 err = repr(e)[:200]
-            evs = [e for e in audit_off() if not (e["kind"] == "open" and e.get("path") == "evidence.bin" and "O_RDWR" in e.get("flags", []) and len(e["flags"]) <= 2)][:50]
+            spooled_changed = False
+            try:
+                with harness_open(pth, "a+b") as fh:
+                    fh.seek(0)
+                    fn(fh)
+            except Exception:  # noqa: BLE001   (whether such a handle is accepted is not the point here; what happens to the bytes is)
+                pass
+            _AUD["on"] = False
+            sp = tempfile.SpooledTemporaryFile(max_size=16, dir=root)
+            try:
+                sp.write(blob)    # rolls over to a real (anonymous) file
+                _AUD["on"] = True
+                sp.seek(0)
+                try:
+                    fn(sp)
+                except Exception:  # noqa: BLE001
+                    pass
+                sp.seek(0)
+                spooled_changed = sp.read() != blob
+            finally:
+                sp.close()
+            evs = audit_off()[:50]
             evs.append(fs_event(before, tree_hash(root), "lib"))
+            evs.append({"kind": "buffer", "changed": spooled_changed})
             tid += 1
             traces.append({"tid": tid, "source": "updatable-file", "workload": name, "events": evs})
             if err:
